@@ -1,6 +1,7 @@
 import PugModel.Tpl.Compile
 import PugModel.JS.Spec
 import PugProofs.C01.EvalScalar
+import PugProofs.C01.EndToEnd
 import PugProofs.C01.SpecScalar
 /-!
 # C01 — embedded JavaScript expressions evaluate as JavaScript does (core subset)
@@ -246,5 +247,32 @@ example :
   · have h : (((1 : Rat) + 2) * 3 < 10) := by grind
     simp [sEval, sLookup, sBin, sToBool, h]
   · simp [WF]
+
+open Pug.JS Pug.Props.C01S Pug.Driver in
+/-- **C01 (end to end, through the whole model of LoadTemplates + Render)** for a boolean result (`= a < b`, `= !x`-free comparisons, `= c ? p == q : r`): the page shows `true` / `false`
+exactly as JavaScript's result says -/
+theorem C01_render_bool_end_to_end (o : Std.TreeMap.Raw String Lean.Json) (svs : SEnv) (hd : ScalarData o svs)
+    (hg : ∀ kv ∈ svs, kv.1 ≠ "global") (e : SExpr) (b : Bool) (inl : Bool)
+    (hw : WF { funcs := engineFuncs ++ [], parserFuncs := engineFuncs ++ [] ++ builtinNames } e) (ht : TopEsc e)
+    (hdepth : e.depth < 50000) (h : sEval svs e = some (.bool b)) :
+    renderModel [.codeBuf e.toExpr true inl] (.obj o) [] false = okOut (if b then "true" else "false") := by
+  have hc := compileDoc_buffered { funcs := engineFuncs ++ [], parserFuncs := engineFuncs ++ [] ++ builtinNames } e inl hw ht hdepth
+  have hag := agree_initState o svs hd hg
+  have hout := (initState_scalars o svs hd).2
+  obtain ⟨v, rv, hwalk⟩ := C01_print_scalar svs e (.bool b) h (initState (.obj o)) hag { defs := [] } true 99999999 (by omega)
+  have hp : printVal v true (initState (.obj o)) =
+      .ok ((), { initState (.obj o) with out := (initState (.obj o)).out ++ (if b then "true" else "false") }) := by
+    cases rv <;> cases b <;>
+      simp [printVal, getHeap, sprint, strFuel, objStr, ofOpt, emit, bind, StateT.bind, Except.bind, get, getThe, MonadStateOf.get,
+        StateT.get, pure, StateT.pure, Except.pure, modify, modifyGet, MonadStateOf.modifyGet, StateT.modifyGet] <;> decide
+  have hrun : walkList 100000000 { defs := [] } [TNode.print (tr e) true] (initState (.obj o)) =
+      .ok ((), { initState (.obj o) with out := (initState (.obj o)).out ++ (if b then "true" else "false") }) := by
+    show walkList (99999999 + 1) _ _ _ = _
+    rw [walkList]
+    simp only [bind, StateT.bind, hwalk, hp, Except.bind]
+    show walkList (99999998 + 1) _ [] _ = _
+    simp [walkList, pure, StateT.pure, Except.pure]
+  simp only [renderModel, hc, StateT.run, hrun, hout, String.empty_append]
+
 
 end Pug.Props.C01
